@@ -18,7 +18,7 @@ BACKENDS = ["default", "torch", "jax", "fortran"]
 SOLVERS = ["euler", "heun", "scipy", "diffrax", "other"]
 DELAYS = ["none", "discrete", "spread", "past"]
 ENTRIES = ["run", "func", "jac"]
-GUARDS = ["guard_path_not_attr", "guard_node_value_not_circuit", "guard_backend_documented"]
+GUARDS = ["guard_path_not_attr", "guard_node_value_not_circuit", "guard_backend_documented", "guard_solver_checked_at_entry"]
 MIXED = ["mix_ds", "mix_sd", "pop_ds", "pop_sd"]
 POP_MIXED = ["pop_ds", "pop_sd"]
 
@@ -950,7 +950,7 @@ def check(ctx):
     badI = sorted(set(badI) | set(badD) | set(badE))      # a wrong dispatch / effect is a disagreement with the mechanism model
     ctx.note(f"option values given as strings: {cmp_['effects']} accepted requests, what ran differs from Guards.option_effect on {len(badE)}")
     ctx.note(f"solver dispatch observed on {cmp_['dispatched']} runs that reached an integration routine; "
-             f"disagreements with Guards.solve_dispatch / named_method: {len(badD)}; model switches fixed_F3={fixed_F3()} fixed_F4={fixed_F3('fixed_F4')} fixed_F5={fixed_F3('fixed_F5')}")
+             f"disagreements with Guards.solve_dispatch / named_method: {len(badD)}; model switches fixed_F3={fixed_F3()} fixed_F4={fixed_F3('fixed_F4')} fixed_F5={fixed_F3('fixed_F5')} fixed_F6={fixed_F3('fixed_F6')}")
     assert not notwf, f"generator produced a network with duplicate keys: {[summarize(cases[i]) for i in notwf[:3]]}"
     # 'ok' must mean that numbers came back; a quiet return without numbers would be a harness blind spot
     hollow = [i for i in good if outs[i]["r"] in ("ok", "warn") and outs[i].get("numbers") is False]
@@ -998,7 +998,7 @@ def check(ctx):
                                           fortran_reaching_f2py=sum(1 for c in cases if c["t"] == "config" and c["be"] == "fortran" and not c["vec"]),
                                           note="`sparse` is a parameter of get_jacobian_func only: rows with sparse=true are run for that entry point"),
                               impl_vs_model_mismatches=len(badI), impl_vs_spec_mismatches=len(badS),
-                              solver_dispatch_observed=cmp_["dispatched"], solver_dispatch_mismatches=len(badD), model_switch_fixed_F3=fixed_F3(), model_switch_fixed_F4=fixed_F3('fixed_F4'), model_switch_fixed_F5=fixed_F3('fixed_F5'), option_effects_observed=cmp_['effects'], option_effect_mismatches=len(badE),
+                              solver_dispatch_observed=cmp_["dispatched"], solver_dispatch_mismatches=len(badD), model_switch_fixed_F3=fixed_F3(), model_switch_fixed_F4=fixed_F3('fixed_F4'), model_switch_fixed_F5=fixed_F3('fixed_F5'), model_switch_fixed_F6=fixed_F3('fixed_F6'), option_effects_observed=cmp_['effects'], option_effect_mismatches=len(badE),
                               mixed_delay_rows=sum(1 for c in cases if c["t"] == "config" and c["dl"] in MIXED),
                               outside_guards={g: len(cmp_[g]) for g in GUARDS}),
                    trusted_base=["exception classes are compared through a three-valued enum (PyRatesException / NotImplementedError / any other)",
@@ -1008,4 +1008,4 @@ def check(ctx):
                                 "Guards.crash_gen / crash_call list the loud downstream failures of those probe models on the current tree "
                                 "(class 'other'); they are part of Impl, not of the guards",
                                 "mixed delay kinds (plain-delay edge + delay+spread edge, both orders) are run on the slice inplace=true, sparse=false",
-                                "no guard is left: F1-F4 are repaired (D48, D49, D76, D79), C20_full_holds is unconditional; their witnesses are regression cases"])
+                                "F1-F5 are repaired (D48, D49, D76, D79, D109), their witnesses are regression cases; one guard is left: guard_solver_checked_at_entry (open finding C20-F6: get_run_func / get_jacobian_func do not validate solver=)"])
